@@ -202,7 +202,7 @@ type applied struct {
 	db   int
 	name string
 	args [][]byte
-	end  int64 // source stream position after the source command (0 for observed commands)
+	end  int64     // source stream position after the source command (0 for observed commands)
 	at   time.Time // when the target executed it (observed commands)
 }
 
